@@ -52,11 +52,18 @@ type scenario struct {
 	ticketsOff       bool
 	vers             uint16 // TLS clients: the only version offered (0 = default range)
 	stdCert          int    // TLS server certificate: 0 ECDSA, 1 RSA
+	extras           bool   // TLS: stapled OCSP response and SCTs on the server certificate, ALPN on both sides
 }
 
+func ex2(ex, base string) string { return base + ex }
+
 func (s scenario) String() string {
-	return fmt.Sprintf("server=%s client=%s cSuites=%04x sSuites=%04x preferServer=%v clientAuth=%d clientCert=%d callbacks=%v ticketsOff=%v vers=%04x stdCert=%d",
-		modeNames[s.mode], cliNames[s.client], s.cSuites, s.sSuites, s.preferServer, s.auth, s.clientCert, s.callbacks, s.ticketsOff, s.vers, s.stdCert)
+	ex := ""
+	if s.extras {
+		ex = " extras(OCSP staple, SCTs, ALPN)"
+	}
+	return ex2(ex, fmt.Sprintf("server=%s client=%s cSuites=%04x sSuites=%04x preferServer=%v clientAuth=%d clientCert=%d callbacks=%v ticketsOff=%v vers=%04x stdCert=%d",
+		modeNames[s.mode], cliNames[s.client], s.cSuites, s.sSuites, s.preferServer, s.auth, s.clientCert, s.callbacks, s.ticketsOff, s.vers, s.stdCert))
 }
 
 // expectation: the reference model of negotiation.
@@ -215,6 +222,12 @@ func serverConfig(s scenario, p *tlsk.PKI) *gmtls.Config {
 			cfg.GetKECertificate = func(*gmtls.ClientHelloInfo) (*gmtls.Certificate, error) { return &enc, nil }
 		}
 	case modeTLS:
+		if s.extras {
+			x := *std
+			x.OCSPStaple, x.SignedCertificateTimestamps = staple, [][]byte{[]byte("sct-one"), []byte("sct-two")}
+			std = &x
+			cfg.NextProtos = []string{"h2", "http/1.1"}
+		}
 		if s.callbacks {
 			cfg.GetCertificate = func(*gmtls.ClientHelloInfo) (*gmtls.Certificate, error) { return std, nil }
 		} else {
@@ -223,6 +236,8 @@ func serverConfig(s scenario, p *tlsk.PKI) *gmtls.Config {
 	}
 	return cfg
 }
+
+var staple = []byte("stapled OCSP response (opaque to the handshake)")
 
 func clientConfig(s scenario, p *tlsk.PKI, kl *keyLog) *gmtls.Config {
 	cfg := &gmtls.Config{Time: tlsk.FixedTime, Rand: wire.NewRand(22), ServerName: tlsk.ServerName, CipherSuites: s.cSuites, KeyLogWriter: kl}
@@ -237,6 +252,9 @@ func clientConfig(s scenario, p *tlsk.PKI, kl *keyLog) *gmtls.Config {
 		}
 	} else {
 		cfg.RootCAs = p.StdRootsG
+		if s.extras {
+			cfg.NextProtos = []string{"h2", "http/1.1"}
+		}
 		if s.vers != 0 {
 			cfg.MinVersion, cfg.MaxVersion = s.vers, s.vers
 		}
@@ -276,6 +294,9 @@ func runScenario(c *harness.Ctx, s scenario, app [2]tlsk.App, kind string) {
 		if s.clientCert == 2 {
 			cc.Certificates = []stdtls.Certificate{stdCert(p.StdClientUntrusted)}
 		}
+		if s.extras {
+			cc.NextProtos = []string{"h2", "http/1.1"}
+		}
 		cs = tlsk.StdEnd(cc, true, app[0], &cv)
 	} else {
 		cs = tlsk.GMEnd(clientConfig(s, p, kl), true, app[0], &cv, nil)
@@ -294,6 +315,11 @@ func runScenario(c *harness.Ctx, s scenario, app [2]tlsk.App, kind string) {
 			sc.MinVersion = s.vers
 		} else {
 			sc.MinVersion = stdtls.VersionTLS10
+		}
+		if s.extras {
+			sc.Certificates[0].OCSPStaple = staple
+			sc.Certificates[0].SignedCertificateTimestamps = [][]byte{[]byte("sct-one"), []byte("sct-two")}
+			sc.NextProtos = []string{"h2", "http/1.1"}
 		}
 		ss = tlsk.StdEnd(sc, false, app[1], &sv)
 	} else {
@@ -340,6 +366,14 @@ func runScenario(c *harness.Ctx, s scenario, app [2]tlsk.App, kind string) {
 	// both completed: same view
 	if o.C.Version != o.S.Version || o.C.Suite != o.S.Suite {
 		c.Violate("views-differ:version-or-suite:"+cls, fmt.Sprintf("[%s] client sees %04x/%04x, server %04x/%04x", label, o.C.Version, o.C.Suite, o.S.Version, o.S.Suite), nil, label)
+	}
+	if s.extras {
+		if o.C.Proto != "h2" || o.S.Proto != "h2" {
+			c.Violate("extras:alpn:"+cls, fmt.Sprintf("[%s] both sides list h2 first but the negotiated protocol is %q (client) / %q (server)", label, o.C.Proto, o.S.Proto), nil, label)
+		}
+		if string(o.C.OCSP) != string(staple) {
+			c.Violate("extras:ocsp-staple:"+cls, fmt.Sprintf("[%s] the client's connection state carries the OCSP response %q, the server stapled %q", label, o.C.OCSP, staple), nil, label)
+		}
 	}
 	if o.C.Version != e.vers || (e.suite != 0 && o.C.Suite != e.suite) {
 		c.Violate(fmt.Sprintf("negotiation-result:%s:cs=%04x:ss=%04x:pref=%v", cls, s.cSuites, s.sSuites, s.preferServer), fmt.Sprintf("[%s] negotiated %04x/%04x, the negotiation rules give %04x/%04x", label, o.C.Version, o.C.Suite, e.vers, e.suite), nil, label)
@@ -504,6 +538,10 @@ func tlsUnit(full bool) harness.Unit {
 									continue
 								}
 								runScenario(c, scenario{mode: mode, client: cli, vers: v, stdCert: sc, auth: auth, clientCert: cert, callbacks: mode == modeAuto}, smallApp, "tls")
+								if mode != modeAuto && (v == 0 || v == 0x0303 || full) {
+									// the same with a stapled OCSP response, SCTs and ALPN
+									runScenario(c, scenario{mode: mode, client: cli, vers: v, stdCert: sc, auth: auth, clientCert: cert, extras: true}, smallApp, "tls")
+								}
 							}
 						}
 					}
